@@ -90,7 +90,7 @@ pub fn meta(prop: Prop) -> Meta {
         Prop::C07 => Meta {
             level: "exploration",
             rule: "one evaluation = one seeded operation history {parse_record, parse_record_nocopy, reset} executed against one real TlsRecordsParser and, call by call, against the executable accumulate-then-parse reference model; distinct = distinct 64-bit fingerprints of the abstract trace (operation kind x content type x outcome class x size class per call); non-trivial = at least 2 records fed or at least one fault kind fired",
-            fault_kinds: &["fragment", "empty-fragment", "foreign-type-interleave", "nocopy-call", "reset", "oversize-stream"],
+            fault_kinds: &["fragment", "empty-fragment", "foreign-type-interleave", "nocopy-call", "reset", "oversize-stream", "announce-lie"],
             cell_spaces: vec![("defrag", None)],
             real: &["TlsRecordsParser::{parse_record, parse_record_nocopy, reset, defrag_in_progress}", "parse_tls_record_with_header", "parse_tls_raw_record", "Debug of returned messages"],
             stub: &["record layer (seeded packing / split plan)", "peer message generator", "reference RFC encoder", "reference defragmentation model", "history-level split-group oracle"],
@@ -105,7 +105,7 @@ pub fn meta(prop: Prop) -> Meta {
             level: "exploration",
             rule: "one evaluation = one simulated run in one of four worlds: (taps, 60%) one structure of 16 kinds (TLS/DTLS records, TLS/DTLS handshake message, extension through the three dispatchers, SCT, SCT list, DH / ECDH / EC parameters, both digitally-signed forms), well-formed or with a single nested field changed, followed by in-flight bytes (nothing, garbage, or bytes that are valid structures themselves), delivered by a seeded segmentation schedule with the named parser applied to the buffer at every delivery event; (stream, 20%) record streams where every framed record is re-parsed on its exact extent, as buffered, and with the whole rest of the stream behind it, plus per-message containment against the sender's byte layout; (dgram, 10%) DTLS datagrams; (defrag, 10%) TlsRecordsParser histories with slice provenance (caller's record vs parser buffer via the hook); distinct = distinct abstract traces; non-trivial = at least 2 delivery events / records or a fault fired",
             fault_kinds: &["trailing-inflight", "length-lie", "seg-dribble", "coalesce", "fragment", "empty-fragment", "nocopy-call", "reset", "multi-record-datagram", "dgram-truncate"],
-            cell_spaces: vec![("tap", Some((0..64).collect()))],
+            cell_spaces: vec![("tap", Some((0..64).filter(|i| ![9 * 4 + 3, 10 * 4 + 3, 11 * 4 + 3, 14 * 4 + 3, 15 * 4 + 3].contains(i)).collect()))],
             real: &["the 16 tapped self-delimiting parsers", "parse_tls_record_with_header", "TlsRecordsParser (provenance)", "parse_dtls_plaintext_record"],
             stub: &["structure encoders (RFC layouts)", "byte pipe / datagram net / record layer", "slice provenance walker over all returned types", "declared-extent framers"],
             assumptions: &[
@@ -180,8 +180,8 @@ pub fn meta(prop: Prop) -> Meta {
         Prop::C10 => Meta {
             level: "exploration",
             rule: "one evaluation = one simulated DTLS conversation: a sender stub emits flights of handshake messages (ClientHello with cookie, HelloVerifyRequest, ServerHello, Certificate, ServerHelloDone, ClientKeyExchange and, as fragments only, other kinds) with message_seq, fragmented to a per-run MTU (64..1500), packed into records and datagrams (several fragments per record, several records per datagram, CCS/alert records, epochs and 48-bit sequence numbers incl. boundaries) and retransmitted by timers on the simulated clock (1 s doubling to 60 s) with possible MTU change (overlapping fragments); the datagram network loses, duplicates, reorders and truncates; the monitor runs the real parsers on every delivered datagram; distinct = distinct abstract traces (per datagram/record: content type x outcome class x size class); non-trivial = at least 2 datagrams delivered or a fault fired",
-            fault_kinds: &["dgram-loss", "dgram-dup", "dgram-reorder", "dgram-truncate", "multi-record-datagram", "fragment", "zero-length-fragment", "overlapping-fragments", "delivered-unfragmented", "reassembled", "bitflip"],
-            cell_spaces: vec![("dframe", Some((0..16).collect())), ("dfrag", Some(vec![0, 1, 4, 5, 6, 7])), ("dmany", None)],
+            fault_kinds: &["dgram-loss", "dgram-dup", "dgram-reorder", "dgram-truncate", "multi-record-datagram", "fragment", "zero-length-fragment", "overlapping-fragments", "delivered-unfragmented", "reassembled", "cap-sized-record"],
+            cell_spaces: vec![("dframe", Some((0..16).collect())), ("dfrag", Some(vec![1, 3, 4, 5, 6, 7])), ("dmany", None)],
             real: &["parse_dtls_plaintext_records", "parse_dtls_plaintext_record", "parse_dtls_record_header", "parse_dtls_record_with_header", "parse_dtls_message_handshake", "DTLSMessage::is_fragment", "Debug of returned values"],
             stub: &["DTLS sender (flights, MTU fragmentation, retransmit timers)", "simulated clock / event queue", "datagram network (loss, dup, reorder, truncate)", "reference RFC encoder", "reference 13-byte framer", "harness reassembler (consumes only parser output)"],
             assumptions: &[
